@@ -527,4 +527,54 @@ theorem da_roundtrip (ls : List (Nat × Nat)) (hn : NodupKeys ls) (hfit : ∀ kv
     rw [this]; rfl
 
 
+def Ctl.isPanic : Ctl → Bool
+  | .halt (.panic _) => true
+  | _ => false
+
+theorem digitsStep_notPanic (bound r b : Nat) (cont done : Nat → Ctl)
+    (hc : ∀ n, (cont n).isPanic = false) (hd : ∀ n, (done n).isPanic = false) :
+    (digitsStep bound r b cont done).isPanic = false := by
+  unfold digitsStep
+  split
+  · split
+    · exact hc _
+    · rfl
+  · exact hd _
+
+theorem afterKey_notPanic (branch : Bool) (k : Nat) : (afterKey branch k).isPanic = false := by
+  unfold afterKey
+  repeat' split
+  all_goals rfl
+
+theorem step_noPanic (branch : Bool) (s : St) (b : Nat) (h : s.ctl.isPanic = false) :
+    (step branch s b).ctl.isPanic = false := by
+  obtain ⟨ctl, a⟩ := s
+  cases ctl <;> simp only [step]
+  case halt o => exact h
+  all_goals (repeat' split)
+  all_goals first
+    | rfl
+    | exact afterKey_notPanic _ _
+    | exact digitsStep_notPanic _ _ _ _ _ (fun _ => rfl) (fun _ => rfl)
+
+theorem run_noPanic (branch : Bool) (s : St) (bs : Bytes) (h : s.ctl.isPanic = false) :
+    (run branch s bs).ctl.isPanic = false := by
+  induction bs generalizing s with
+  | nil => exact h
+  | cons b bs ih => exact ih _ (step_noPanic branch s b h)
+
+theorem parse_noPanic (branch : Bool) (bs : Bytes) (site : String) :
+    parse branch bs ≠ .panic site := by
+  have h := run_noPanic branch {} bs rfl
+  unfold parse
+  generalize run branch {} bs = s at h
+  obtain ⟨ctl, a⟩ := s
+  intro e
+  cases ctl <;> simp only [finish] at e
+  case halt =>
+    subst e; simp [Ctl.isPanic] at h
+  all_goals first
+    | (cases e)
+    | (split at e <;> cases e)
+
 end Grcov.Lcov
